@@ -116,6 +116,8 @@ class TypeMap:
         self.rules = []      # (compiled regex, cname, kind)
         self.typedefs = {}   # sugar name -> underlying C++ type string
         self.records = {}    # qualified C++ record name -> (cname, kind)
+        self.embedded = set()   # (record qualname, field): reference members modelled as embedded objects
+        self.known_records = set()   # qualified names of records defined in the TUs (default: struct <Name>, ptr)
     def add_rule(self, rx, cname, kind):
         self.rules.append((re.compile('^(?:' + rx + ')$'), cname, kind))
     @staticmethod
@@ -146,8 +148,11 @@ class TypeMap:
         if core in BUILTIN: return BUILTIN[core], 'scalar'
         for rx, cname, kind in self.rules:
             if rx.match(core): return cname, kind
-        for cand in (core, core.replace('Pomerol::', ''), 'Pomerol::' + core):
+        for cand in (core, core.replace('Pomerol::', ''), 'Pomerol::' + core, 'pMPI::' + core):
             if cand in self.records: return self.records[cand]
+        for cand in (core, 'Pomerol::' + core, 'pMPI::' + core):
+            if cand in self.known_records:
+                return 'struct ' + re.sub(r'\W+', '_', cand.replace('Pomerol::', '').replace('pMPI::', '')), 'ptr'
         for cand in (core, 'Pomerol::' + core, core.replace('Pomerol::', ''), 'pMPI::' + core):
             if cand in self.typedefs and self.typedefs[cand] != core:
                 return self.resolve(self.typedefs[cand])
@@ -171,6 +176,7 @@ class TypeMap:
 class TU:
     def __init__(self, tu_path, workdir, filt='Pomerol::', extra_flags=()):
         self.path = tu_path
+        self.ns = filt.rstrip(':') if filt.endswith('::') else ''
         txt, self.cmd = dump_ast(tu_path, workdir, filt, extra_flags)
         self.tops = load_all(txt)
         self.index = {}; self.parent = {}
@@ -210,6 +216,13 @@ class TU:
         while p is not None and p.get('kind') not in ('CXXRecordDecl', 'ClassTemplateSpecializationDecl'):
             p = self.parent.get(p.get('id'))
         return p
+    def is_template_record(self, rec):
+        if rec.get('kind') == 'ClassTemplateSpecializationDecl': return True
+        n = rec
+        while n is not None:
+            if n.get('kind') in ('ClassTemplateDecl', 'ClassTemplateSpecializationDecl', 'ClassTemplatePartialSpecializationDecl'): return True
+            n = self.parent.get(n.get('id'))
+        return False
     def qualname(self, decl):
         parts = []
         n = decl
@@ -220,7 +233,10 @@ class TU:
                 n = self.index[n['parentDeclContextId']]
             else:
                 n = self.parent.get(n.get('id'))
-        return '::'.join(reversed(parts))
+        q = '::'.join(reversed(parts))
+        if self.ns and q != self.ns and not q.startswith(self.ns + '::'):
+            q = self.ns + ('::' + q if q else '')
+        return q
     def find_record(self, qual):
         best = None
         for nid, n in self.index.items():
@@ -235,6 +251,12 @@ class TU:
         if best is None: raise ExtractionBreak('record "%s" not found in %s' % (qual, self.path))
         return best
     def find_enum(self, qual):
+        if qual.endswith('::'):
+            for nid, n in self.index.items():
+                if n.get('kind') == 'EnumDecl' and not n.get('name'):
+                    par = self.parent.get(nid)
+                    if par is not None and par.get('name') == qual[:-2].split('::')[-1]: return n
+            raise ExtractionBreak('anonymous enum in "%s" not found' % qual)
         for nid, n in self.index.items():
             if n.get('kind') == 'EnumDecl' and n.get('name') == qual.split('::')[-1]:
                 return n
@@ -322,7 +344,10 @@ class Printer:
         inner = q.rstrip('&').strip()
         is_const = inner.startswith('const ') or inner.endswith(' const')
         if not is_const: return 'pointer'
-        c, k = self.tm.resolve(inner)
+        try:
+            c, k = self.tm.resolve(inner)
+        except ExtractionBreak:
+            return 'pointer'      # reference to a dependency (base) class: by address
         return 'value' if k in ('scalar', 'val') else 'pointer'
 
     # ---------- helpers
@@ -416,9 +441,17 @@ class Printer:
         fid = n.get('referencedMemberDecl')
         fd = self.tu.index.get(fid)
         if fd is None: return False
+        if (fd.get('name'), self.is_ref(fd.get('type', {}).get('qualType', ''))) == (fd.get('name'), True) and self.embedded_field(fd): return False
         return self.is_ref(fd.get('type', {}).get('qualType', ''))
+    def embedded_field(self, fd):
+        rec = self.tu.record_of(fd)
+        if rec is None: return False
+        return (self.tu.qualname(rec), fd.get('name')) in self.tm.embedded
     def e_MemberExpr(self, n):
         b = n['inner'][0]
+        # fields of base classes are flattened into the C struct of the derived class
+        while b.get('kind') == 'ImplicitCastExpr' and b.get('castKind') in ('UncheckedDerivedToBase', 'DerivedToBase', 'NoOp'):
+            b = b['inner'][0]
         be = self.expr(b)
         name = n['name']
         if n.get('isArrow'):
@@ -440,7 +473,7 @@ class Printer:
         d = self.tu.index.get(member_id)
         if d is not None:
             rec = self.tu.record_of(d)
-            if rec is not None:
+            if rec is not None and not self.tu.is_template_record(rec):
                 q = self.tu.qualname(rec)
                 try:
                     c, k = self.tm.lookup(q)
@@ -582,10 +615,18 @@ class Printer:
         if ck in ('DerivedToBase', 'UncheckedDerivedToBase', 'BaseToDerived'):
             if n.get('valueCategory') == 'lvalue' or n['type'].get('qualType', '').endswith('*'):
                 q = n['type'].get('desugaredQualType') or n['type']['qualType']
-                if q.endswith('*'):
+                try:
                     c, k = self.tm.resolve(q)
+                except ExtractionBreak:
+                    # base class of a dependency type: the C model of the derived type stands for it
+                    return self.expr(sub)
+                try:
+                    sc, sk = self.ctype(self.obj_static_type(sub)) if q.endswith('*') else self.ctype(sub['type'])
+                except ExtractionBreak:
+                    sc = None
+                if sc == c: return self.expr(sub)
+                if q.endswith('*'):
                     return '((%s)(%s))' % (c, self.expr(sub))
-                c, k = self.tm.resolve(q)
                 return '(*(%s *)%s)' % (c, simp_addr(self.expr(sub)))
             return self.expr(sub)
         if ck == 'ToVoid': return '((void)(%s))' % self.expr(sub)
@@ -605,19 +646,22 @@ class Printer:
     def e_BinaryOperator(self, n):
         l, r = n['inner']; op = n['opcode']
         le, re_ = self.expr(l), self.expr(r)
-        if op in ('*', '/') and self.is_double(n):
-            return '%s(%s, %s)' % ('D_MUL' if op == '*' else 'D_DIV', le, re_)
+        if op in ('*', '/', '+', '-') and self.is_double(n):
+            return '%s(%s, %s)' % ({'*': 'D_MUL', '/': 'D_DIV', '+': 'D_ADD', '-': 'D_SUB'}[op], le, re_)
+        if op in ('<', '>', '<=', '>=', '==', '!=') and self.is_double(l) and self.is_double(r):
+            return '%s(%s, %s)' % ({'<': 'D_LT', '>': 'D_GT', '<=': 'D_LE', '>=': 'D_GE', '==': 'D_EQ', '!=': 'D_NE'}[op], le, re_)
         if op == ',': return '(%s, %s)' % (le, re_)
         return '(%s %s %s)' % (le, op, re_)
     def e_CompoundAssignOperator(self, n):
         l, r = n['inner']; op = n['opcode']
         le, re_ = self.expr(l), self.expr(r)
-        if op in ('*=', '/=') and self.is_double(n):
-            return '(%s = %s(%s, %s))' % (le, 'D_MUL' if op == '*=' else 'D_DIV', le, re_)
+        if op in ('*=', '/=', '+=', '-=') and self.is_double(n):
+            return '(%s = %s(%s, %s))' % (le, {'*=': 'D_MUL', '/=': 'D_DIV', '+=': 'D_ADD', '-=': 'D_SUB'}[op], le, re_)
         return '(%s %s %s)' % (le, op, re_)
     def e_UnaryOperator(self, n):
         s = self.expr(n['inner'][0]); op = n['opcode']
         if n.get('isPostfix'): return '(%s%s)' % (s, op)
+        if op == '-' and self.is_double(n): return 'D_NEG(%s)' % s
         if op == '&': return simp_addr(s)
         if op == '*': return '(*%s)' % s
         return '(%s%s)' % (op, s)
@@ -744,7 +788,7 @@ class Printer:
             self.dropped.append('stream output'); return []
         sn = self.strip(n)
         if sn.get('kind') == 'CXXThrowExpr': return self.throw_stmt(sn, ind)
-        if sn.get('kind') == 'CStyleCastExpr' and sn.get('castKind') == 'ToVoid':
+        if sn.get('castKind') == 'ToVoid':
             self.dropped.append('(void) expression (assert under NDEBUG)'); return []
         ncalls = len(self.calls)
         e = self.expr(n)
@@ -830,7 +874,7 @@ class Printer:
                     fname = ci['anyInit']['name']
                     fq = ci['anyInit']['type']['qualType']
                     e = self.expr(ci['inner'][0])
-                    if self.is_ref(fq): e = simp_addr(e)
+                    if self.is_ref(fq) and (self.tu.qualname(self.tu.record_of(fn)), fname) not in self.tm.embedded: e = simp_addr(e)
                     pre.append('  self->%s = %s;' % (fname, e))
                 elif 'baseInit' in ci:
                     bc, bk = self.ctype(ci['baseInit'])
@@ -841,6 +885,13 @@ class Printer:
                 else:
                     raise ExtractionBreak('constructor initializer of unknown form')
         blines = self.stmt(body, '')
+        wrapper = None
+        if kind == 'CXXConstructorDecl':
+            iname = cname.replace('_ctor', '_init') if '_ctor' in cname else cname + '_init'
+            selft = params[0][:-len(' *self')]
+            pn = [x.split()[-1].lstrip('*') for x in params[1:]]
+            wrapper = '%s %s(%s)\n{\n  %s __s;\n  %s(%s);\n  return __s;\n}' % (selft, cname, ', '.join(params[1:]) if params[1:] else 'void', selft, iname, ', '.join(['&__s'] + pn))
+            cname = iname
         sig = '%s %s(%s)' % (rc, cname, ', '.join(params) if params else 'void')
         lines.append(sig)
         if contract.strip(): lines += [l for l in contract.strip().split('\n')]
@@ -853,6 +904,7 @@ class Printer:
         missing = set(self.loop_contracts) - self.used_loops
         if missing:
             raise ExtractionBreak('%s: spec has loop contracts for loops %s but the function has %d loops' % (cname, sorted(missing), self.loops))
+        if wrapper: lines.append(wrapper)
         return '\n'.join(lines), dict(loops=self.loops, dropped=list(self.dropped), calls=sorted(set(self.calls)), has_throw=self.has_throw, sig=sig)
 
     # ---------- records
@@ -869,14 +921,20 @@ class Printer:
         for c in rec.get('inner', []):
             if c.get('kind') == 'FieldDecl': out.append(c)
         return out
-    def struct(self, rec, cname, only=None, skip=(), extra=''):
-        lines = ['%s {' % cname]
+    def struct(self, rec, cname, only=None, skip=(), extra='', embed=()):
+        lines = ['%s {' % (cname if cname.startswith('struct ') else 'struct ' + cname)]
         info = []
         for f in self.all_fields(rec):
             if only is not None and f['name'] not in only: continue
             if f['name'] in skip: continue
             try:
-                c, k = self.ctype(f['type'])
+                if f['name'] in embed and self.is_ref(f['type']['qualType']):
+                    c, k = self.tm.resolve(f['type']['qualType'].rstrip('&').strip())
+                    frec = self.tu.record_of(f)
+                    self.tm.embedded.add((self.tu.qualname(frec), f['name']))
+                    info.append('reference member %s modelled as an embedded object' % f['name'])
+                else:
+                    c, k = self.ctype(f['type'])
             except ExtractionBreak as e:
                 info.append('field %s skipped: %s' % (f['name'], e)); continue
             m = re.match(r'^(.*)\[(\d+)\]$', c)
